@@ -437,7 +437,7 @@ func drawC08(t *rapid.T) C08Case {
 func TestC08(t *testing.T) {
 	rec := obs.New("C08")
 	defer rec.Flush(true)
-	rec.SetExtra("rule", "rapid operation histories (4-28 steps) over a growing family of tokens under one root key: build, createBlock(token), add fact/rule/check to a builder (every action uses symbols no other action uses), buildBlock, append(block to the token whose CreateBlock made it; the same block may be appended twice), seal, reload from bytes, GetBlockID, authorize with fresh content, print. Parents are drawn with replacement, so several builders, blocks and tokens derived from one parent are the norm. Model: for every token the blocks its own callers supplied, plus a snapshot at birth. Invariant after every step for every live token: String, Code, Serialize, RevocationIds unchanged; every third step also String of the token reloaded from its bytes and the outcomes of two panel authorizers (allow-all; allow-all plus the facts the token's own checks ask for). At birth: independent decoding of Serialize equals the model, String equals the reloaded twin's. Non-trivial = a history in which some parent has >= 2 derivations and is observed afterwards; distinct by history.")
+	rec.SetExtra("rule", "rapid operation histories (4-28 steps) over a growing family of tokens under one root key: build, createBlock(token), add fact/rule/check to a builder (every action uses symbols no other action uses), buildBlock, append(block to the token whose CreateBlock made it; the same block may be appended twice), seal, reload from bytes, GetBlockID (fresh fact; known predicate name or default symbol with a fresh string), authorize with fresh content, print, and the composites grow (create+add+build+append on the deepest token) and fork (the same twice on one parent). Parents are drawn with replacement, so several builders, blocks and tokens derived from one parent are the norm. Model: for every token the blocks its own callers supplied, plus a snapshot at birth. Invariant after every step for every live token: String, Code, Serialize, RevocationIds unchanged; every third step also String of the token reloaded from its bytes and the outcomes of two panel authorizers (allow-all; allow-all plus the facts the token's own checks ask for). At birth: independent decoding of Serialize equals the model, String equals the reloaded twin's. Non-trivial = a history in which some parent has >= 2 derivations and is observed afterwards; distinct by history.")
 	rec.SetExtra("assumptions", []string{"a block is appended only to the token whose CreateBlock made it; Build is called once per builder"})
 	harness.RunWith(t, harness.Spec[C08Case]{ID: "C08", Draw: drawC08, Check: checkC08}, rec)
 }
